@@ -1,7 +1,7 @@
 (* C02 — footprint weights reproduce the flux and concentration seen at the tower.
    Only statements, `exact`, Print Assumptions. *)
 From Coq Require Import ZArith List Bool.
-From BL Require Import Base.Ops Base.Laws Model.Solver Proofs.SpecProofs Proofs.C04Proofs Proofs.C02Proofs.
+From BL Require Import Base.Ops Base.Laws Model.Solver Model.Utils Proofs.SpecProofs Proofs.C04Proofs Proofs.C02Proofs Proofs.UtilsProofs.
 Import ListNotations.
 
 (* For EVERY real surface-flux field, every on-grid measurement point (im, jm), every halo (the
@@ -41,5 +41,37 @@ Theorem C02_shift_is_phase : forall (O : Ops), Laws O ->
   = cis O (phase O g (fftfreq (g_nlx O g) (fst t)) (fftfreq (g_nly O g) (snd t)) (im + g_px O g) (jm + g_py O g)).
 Proof. exact shift_fp_phase. Qed.
 
+(* the same with the package's own helper utils.point_measurement(f, g) = np.sum(f * g)
+   (Model/Utils.v): point_measurement(q, footprint[k]) is the forward flux at the tower and
+   point_measurement(q, G[k]) the forward concentration above background *)
+Theorem C02_point_measurement : forall (O : Ops), Laws O ->
+  forall (a : args O) (g : geom O) (im jm : nat) (p : C O),
+  wf O a -> a_single O a = false ->
+  (forall j i, cre O (cellq O (a_q0 O a) j i) = cellq O (a_q0 O a) j i) ->
+  geometry O (fp_req O a (cmul O (cofZ O (Z.of_nat im)) (g_dx O g)) (cmul O (cofZ O (Z.of_nat jm)) (g_dy O g))) = inl g ->
+  g_dx O g <> c0 O -> g_dy O g <> c0 O -> g_nxe O g <> 0%nat -> g_nye O g <> 0%nat ->
+  (0 < g_nlx O g)%nat -> (0 < g_nly O g)%nat -> (im < g_nx O g)%nat -> (jm < g_ny O g)%nat ->
+  forall k, (k < length (a_levels O a))%nat ->
+  let afp := fp_req O a (cmul O (cofZ O (Z.of_nat im)) (g_dx O g)) (cmul O (cofZ O (Z.of_nat jm)) (g_dy O g)) in
+  let afw := fw_req O a p in
+  (point_measurement O (a_q0 O a) (nth k (field O afp g snd (table O afp g)) [])
+   = get3 O (field O afw g snd (table O afw g)) k jm im)
+  /\
+  (point_measurement O (a_q0 O a) (nth k (field O afp g fst (table O afp g)) [])
+   = csub O (get3 O (field O afw g fst (table O afw g)) k jm im) (cre O p)).
+Proof. exact reciprocity_point_measurement. Qed.
+
+(* point_measurement is the sum over all cells of the element-wise product, for any two equally
+   shaped arrays *)
+Theorem C02_point_measurement_cells : forall (O : Ops), Laws O ->
+  forall (f g : list (list (C O))) (ny nx : nat),
+  length f = ny -> length g = ny ->
+  (forall row, In row f -> length row = nx) -> (forall row, In row g -> length row = nx) ->
+  point_measurement O f g
+  = csum O (map (fun j => csum O (map (fun i => cmul O (cellq O f j i) (cellq O g j i)) (seq 0 nx))) (seq 0 ny)).
+Proof. exact point_measurement_cells. Qed.
+
 Goal True. idtac "THEOREM C02_reciprocity". Abort. Print Assumptions C02_reciprocity.
 Goal True. idtac "THEOREM C02_shift_is_phase". Abort. Print Assumptions C02_shift_is_phase.
+Goal True. idtac "THEOREM C02_point_measurement". Abort. Print Assumptions C02_point_measurement.
+Goal True. idtac "THEOREM C02_point_measurement_cells". Abort. Print Assumptions C02_point_measurement_cells.
